@@ -3570,14 +3570,21 @@ class NameCheckVisitor(node_visitor.ReplacingNodeVisitor):
                 and isinstance(op, (ast.Eq, ast.NotEq))
             ):
                 op_func, _, _ = COMPARATOR_TO_OPERATOR[type(op)]
-                definite_value = op_func(sys.platform, rhs.val)
+                try:
+                    definite_value = bool(op_func(sys.platform, rhs.val))
+                except Exception:
+                    pass
             elif (
                 SYS_VERSION_INFO_EXTENSION in lhs.metadata
                 and isinstance(rhs, KnownValue)
                 and isinstance(op, (ast.Gt, ast.GtE, ast.Lt, ast.LtE))
             ):
                 op_func, _, _ = COMPARATOR_TO_OPERATOR[type(op)]
-                definite_value = op_func(sys.version_info, rhs.val)
+                try:
+                    definite_value = bool(op_func(sys.version_info, rhs.val))
+                except Exception:
+                    # e.g. sys.version_info >= "3.8"
+                    pass
             lhs = lhs.value
         if isinstance(lhs_constraint, PredicateProvider) and isinstance(
             rhs, KnownValue
